@@ -1,7 +1,7 @@
 CONSTANTS
 NChild = 3
 Mutant = 0
-MaxEvents = 7
+MaxEvents = 8
 INIT Init
 NEXT Next
 INVARIANT I_InUse
